@@ -104,7 +104,7 @@ fn main() {
                 let lock = std::fs::File::create("/verif/.build/c15.lock").expect("lock file");
                 unsafe { libc::flock(std::os::unix::io::AsRawFd::as_raw_fd(&lock), libc::LOCK_EX) };
                 let mut total = ItemResult::default();
-                for (val, range) in [(1u32, 0..5usize), (0u32, 5..10usize)] {
+                for (val, range) in [(1u32, 0..5usize), (0u32, 5..10usize), (1u32, 10..12usize)] {
                     if let Err(e) = c15::write_sysctl(val) { let _ = c15::write_sysctl(orig); eprintln!("MACHINERY ERROR: {}", e); std::process::exit(2); }
                     let r = run_pool_range(&ctx, range, budget(&prop, &tier));
                     total.merge(r);
@@ -125,6 +125,10 @@ fn main() {
             };
             println!("{}", serde_json::to_string(&r).unwrap());
         }
+        "list" => {
+            // vmc list <prop> <tier>: the sysmc items of a check (index, scenario, plan)
+            for (i, it) in sysprops::items(&args[2], &args[3]).iter().enumerate() { println!("{} {} {:?} bundle={}", i, it.scen.name, it.plan, it.bundle.len()); }
+        }
         "trace" => {
             // vmc trace <K|E> <warm|cold> '<op json>'
             let op: proto::Op = serde_json::from_str(&args[4]).expect("op json");
@@ -136,7 +140,7 @@ fn main() {
             let tier = doc["tier"].as_str().unwrap_or("quick").to_string();
             let case = doc["case"].clone();
             let idx = case["item"].as_u64().unwrap_or(0) as usize;
-            let c15_orig = if prop == "C15" { let o = c15::read_sysctl(); let _ = c15::write_sysctl(if idx < 5 { 1 } else { 0 }); o } else { None };
+            let c15_orig = if prop == "C15" { let o = c15::read_sysctl(); let _ = c15::write_sysctl(c15::sysctl_for(idx)); o } else { None };
             let rr = run_item(&prop, &tier, idx, Some(&case));
             if let Some(o) = c15_orig { let _ = c15::write_sysctl(o); }
             match rr {
